@@ -433,7 +433,12 @@ func genM1(r *rand.Rand, p Profile, id string) Case {
 			if p.WPrune {
 				lvfoTok = "wlvfo"
 			}
-			ops = append(ops, []string{lvfoTok, i64(v)})
+			if r.Intn(4) == 0 && !t.dirty {
+				// the same rollback by DeleteVersionsFrom + reload
+				ops = append(ops, []string{"dvreload", i64(v), []string{"reopen", "load"}[r.Intn(2)]})
+			} else {
+				ops = append(ops, []string{lvfoTok, i64(v)})
+			}
 			var keep []int64
 			for _, w := range t.versions {
 				if w <= v {
